@@ -163,6 +163,26 @@ def run_tlc(
     return res
 
 
+def run_apalache(module: str, init: str, inv: str, length: int, tag: str, timeout: int = 3000) -> dict:
+    """apalache-mc check --init=.. --inv=.. --length=..; returns {ok, wall_s, outcome}. A tool failure is a MachineryError."""
+    out = workdir("apalache", tag)
+    t0 = time.time()
+    cmd = ["apalache-mc", "check", f"--init={init}", f"--inv={inv}", "--next=Next", f"--length={length}", f"--out-dir={out}", f"{module}.tla"]
+    e = dict(os.environ)
+    e.pop("JAVA_TOOL_OPTIONS", None)
+    try:
+        p = subprocess.run(cmd, cwd=SPEC, env=e, capture_output=True, text=True, timeout=timeout)
+    except subprocess.TimeoutExpired as ex:
+        raise MachineryError(f"apalache timeout after {timeout}s on {module}") from ex
+    finally:
+        shutil.rmtree(out, ignore_errors=True)
+    txt = p.stdout + p.stderr
+    m = re.search(r"The outcome is: (\w+)", txt)
+    if not m:
+        raise MachineryError(f"apalache did not report an outcome on {module}: {txt[-400:]}")
+    return {"ok": m.group(1) == "NoError", "outcome": m.group(1), "wall_s": round(time.time() - t0, 1), "init": init, "inv": inv, "length": length}
+
+
 def simulate_emitted(module: str, cfg: str, tag: str, num: int, depth: int, seed: int, timeout: int = 1800) -> tuple:
     """Random behaviours of the specification (tlc -simulate): every state TLC evaluates on the way (the successors it chooses from
     included) is emitted by the EmitCase invariant of the module; returns (TLCResult, emitted records)."""
